@@ -10,7 +10,7 @@ PROPS = "Properties_C06"
 RULE = ("seeded generator of operation histories (interleaved insert/remove/find/iterator ops, both duplicate "
         "policies, small key universes so that equal keys occur, ascending/descending/zigzag/Fibonacci-tree "
         "builders that force every rotation case of insertion and multi-rotation removals, allocation failures); "
-        "thorough adds every history of length <= 5 over a 9-letter op alphabet; distinct case strings with at "
+        "every history of length <= 4 (quick) / <= 5 (thorough) over a 9-letter op alphabet, both policies; distinct case strings with at "
         "least one insert and one remove counted as non-trivial")
 ASSUMPTIONS = [
     "comparator = total preorder induced by an integer rank of the element (driver: the key); it and the destroy "
@@ -34,7 +34,19 @@ def _stale(target, sources):
 
 
 def build(ctx):
-    ctx.build_driver("drv_c06", ["tree.c", "allocator.c", "status.c"])
+    extra = os.environ.get("C06_EXTRA_CFLAGS", "").split()     # experiments only (e.g. -DNDEBUG)
+    ctx.build_driver("drv_c06", ["tree.c", "allocator.c", "status.c"], flags=extra)
+    ctx.c06_verify = None
+    if ctx.tier == "thorough":
+        # cross-check build: tree.c's own ZIX_TREE_VERIFY / ZIX_TREE_HYPER_VERIFY mode (order, parent links,
+        # balance = height difference asserted by the library after every insert/remove)
+        try:
+            ctx.build_driver("drv_c06", ["tree.c", "allocator.c", "status.c"], out=ctx.path("drv_c06_verify"),
+                             flags=extra + ["-DZIX_TREE_VERIFY", "-DZIX_TREE_HYPER_VERIFY", "-DC06_VERIFY_BUILD",
+                                            "-include", "stdio.h", "-include", "stdbool.h"])
+            ctx.c06_verify = ctx.path("drv_c06_verify")
+        except vlib.BuildError as e:
+            ctx.notes.append("ZIX_TREE_VERIFY cross-check build failed (not part of the check): " + str(e)[-200:])
     exe = os.path.join(vlib.OCAML_BUILD, "drv_c06")
     srcs = [os.path.join(vlib.COQ, f) for f in ("AvlModel.v", "AvlSpec.v", "ExtractC06.v")]
     srcs.append(os.path.join(vlib.VERIF, "ocaml", "drv_c06.ml"))
@@ -244,12 +256,12 @@ def gen(ctx, seed, tier):
                         continue
                     cases.append(gen_ordered(r, n, order, dup, removal))
     # Fibonacci trees
-    for h in range(2, 10 if thorough else 8):
+    for h in range(2, 11 if thorough else 9):
         for flip in (False, True):
-            for _ in range(6 if thorough else 3):
+            for _ in range(20 if thorough else 5):
                 cases.append(gen_fib(r, h, flip, r.random() < 0.5))
     # random interleavings
-    n_small, n_mid, n_big = (6000, 1500, 40) if thorough else (900, 200, 6)
+    n_small, n_mid, n_big = (40000, 10000, 300) if thorough else (6000, 1500, 40)
     for _ in range(n_small):
         cases.append(gen_random(r, r.randint(3, 40), r.choice([2, 3, 5, 8]), r.random() < 0.5))
     for _ in range(n_mid):
@@ -258,8 +270,8 @@ def gen(ctx, seed, tier):
     for _ in range(n_big):
         cases.append(gen_random(r, r.randint(800, 2500), r.choice([30, 500, 100000]), r.random() < 0.5,
                                 p_ins=r.choice([0.45, 0.55])))
-    if thorough and seed == ctx.seed:
-        cases += exhaustive(5)
+    if seed == ctx.seed:
+        cases += exhaustive(5 if thorough else 4)
     return cases
 
 
@@ -281,13 +293,33 @@ def corpus(ctx):
 
 # ------------------------------------------------------------------ running
 def run_impl(ctx, cases):
+    out = _run_driver(ctx, ctx.path("drv_c06"), cases)
+    if getattr(ctx, "c06_verify", None):
+        ver = _run_driver(ctx, ctx.c06_verify, cases)
+        for i, (a, b) in enumerate(zip(out, ver)):
+            # the library's verify() calls the comparator itself, so insert's comparator log differs by design
+            if _strip_cmplog(a) != _strip_cmplog(b):
+                out[i] = "VERIFY-BUILD-DIFFERS " + b[:200]
+        _xstats["verify_build_cases"] = _xstats.get("verify_build_cases", 0) + len(ver)
+    return out
+
+
+def _strip_cmplog(line):
+    parts = line.split(" || ")
+    if len(parts) != 2:
+        return line
+    toks = ["c?" if (t[0] == "c" and all(ch in "0123456789." for ch in t[1:])) else t for t in parts[1].split()]
+    return parts[0] + " || " + " ".join(toks)
+
+
+def _run_driver(ctx, exe, cases):
     """the driver handles all cases in one process; if it dies (assert, sanitizer, watchdog) the case
     that killed it is reported as CRASH and the driver is restarted on the rest"""
     out = []
     rest = list(cases)
     restarts = 0
     while rest:
-        rc, lines, err = ctx.run_lines([ctx.path("drv_c06")], rest, timeout=1200)
+        rc, lines, err = ctx.run_lines([exe], rest, timeout=1200)
         lines = [l for l in lines if l != ""]
         if rc == 0 and len(lines) == len(rest):
             out += lines
@@ -319,12 +351,40 @@ def run_model(ctx, cases):
         raise vlib.BuildError("model driver drv_c06: %d cases, %d M lines, %d S lines" % (len(cases), len(ms), len(ss)))
     if "rot" not in _xstats:            # statistics of the first (= main correspondence) run only
         rot = {}
+        per_remove = {}
         for x in xs:
-            for code in x.strip().split("."):
-                if code:
+            for grp in x.strip().split(","):
+                if not grp:
+                    continue
+                codes = grp[1:].split(".")
+                for code in codes:
                     rot[code] = rot.get(code, 0) + 1
+                if grp[0] == "r":
+                    per_remove[len(codes)] = per_remove.get(len(codes), 0) + 1
         _xstats["rot"] = rot
+        _xstats["per_remove"] = per_remove
     return ms, ss
+
+
+def _fib(n):
+    a, b = 0, 1
+    for _ in range(n):
+        a, b = b, a + b
+    return a
+
+
+def l1_extra(case, impl_obs):
+    """the balance clause: a find that made n comparisons in a tree of size s must satisfy fib(n+2) <= s+1
+    (theorem avl_find_cost); the deepest root-to-node path h reported by D likewise (avl_height_fib)"""
+    for t in impl_obs.split():
+        if t.startswith("fc") or t.startswith("D:h"):
+            try:
+                n, s = t[2:].split("/") if t.startswith("fc") else t[3:].split("/")
+                if _fib(int(n) + 2) > int(s) + 1:
+                    return False
+            except ValueError:
+                return False
+    return True
 
 
 def nontrivial(c):
@@ -377,5 +437,19 @@ def stats(cases, impl):
     d["op_results"] = cnt
     d["removal_targets"] = rm
     d["rotation_cases_in_model_runs"] = {ROT_NAMES.get(k, k): v for k, v in sorted(_xstats.get("rot", {}).items())}
+    d["removals_by_number_of_rotations"] = {str(k): v for k, v in sorted(_xstats.get("per_remove", {}).items())}
     d["crashes"] = sum(1 for l in impl if l.startswith("CRASH"))
+    d["cases_also_run_on_ZIX_TREE_HYPER_VERIFY_build"] = _xstats.get("verify_build_cases", 0)
+    worst = 0.0
+    import math
+    for l in impl:
+        for t in l.split(" || ")[0].split():
+            if t.startswith("D:h") and "/" in t:
+                try:
+                    h, n = t[3:].split("/")
+                    if int(n) > 0:
+                        worst = max(worst, int(h) / math.log2(int(n) + 2))
+                except ValueError:
+                    pass
+    d["max_height_over_log2_size_plus_2"] = round(worst, 4)
     return d
